@@ -16,9 +16,9 @@ evaluator, or it is a stub supplied by the rule.  Anything outside the supported
 from __future__ import annotations
 
 import ast
-from typing import Any, Callable, Dict, List, Optional, Sequence
+from typing import Any, Callable, Dict, Optional
 
-from sa.blockeval import BlockEval, Unknown, _Stop
+from sa.blockeval import BlockEval, Unknown
 
 _PROPERTY = ("property", "cached_property")
 
